@@ -203,6 +203,10 @@ pub struct SidecarCase {
     pub existing: bool,
     pub content: Vec<u8>,
     pub as_dir: bool,
+    /// which member of the open family is tried on an existing memory: 0 = open, 1 = open_read_only,
+    /// 2 = open_read_only_with_options(allow_repair)
+    #[serde(default)]
+    pub entry: u8,
 }
 
 const SUFFIXES: &[&str] = &["-wal", "-shm", "-lock", "-journal"];
@@ -235,8 +239,19 @@ pub fn check_sidecar(c: &SidecarCase) -> CheckResult {
         std::fs::write(&side, &c.content).map_err(|e| Fail::new("infra", e.to_string()))?;
     }
     let before = listing(&dir.0);
-    let res = if c.existing { Memvid::open(&path).map(|_| ()) } else { Memvid::create(&path).map(|_| ()) };
-    let what = if c.existing { "open" } else { "create" };
+    let (res, what) = if c.existing {
+        match c.entry % 3 {
+            0 => (Memvid::open(&path).map(|_| ()), "open"),
+            1 => (Memvid::open_read_only(&path).map(|_| ()), "open_read_only"),
+            _ => {
+                let mut o = memvid_core::OpenReadOptions::default();
+                o.allow_repair = true;
+                (Memvid::open_read_only_with_options(&path, o).map(|_| ()), "open_read_only_with_options(allow_repair)")
+            }
+        }
+    } else {
+        (Memvid::create(&path).map(|_| ()), "create")
+    };
     if forbidden {
         match &res {
             Err(MemvidError::AuxiliaryFileDetected { .. }) => {}
@@ -301,11 +316,11 @@ fn op() -> impl Strategy<Value = Op> {
 }
 
 pub fn build(ctx: &Ctx) -> Vec<Box<dyn Arm>> {
-    ctx.rule("(a) histories over every mutating / maintenance API (puts incl. default options, chunked and log-growing sizes, embedded puts with conflicting dimensions, update/delete incl. out-of-range and inactive ids, commit, close+reopen, read-only open next to the writer, vacuum, doctor with all option combinations incl. dry_run, doctor_plan, verify, tickets that make later puts fail with CapacityExceeded, stale tickets, begin/end_batch, commit_skip_indexes, finalize_indexes, enable_lex/vec, search); the result of each call is recorded (Ok or Err are both legal) and the directory is listed after EVERY call: it must contain exactly the one .mv2 file; (b) create/open next to a generated neighbour: the 8 forbidden sidecar names (file or directory, any content) must make create/open fail with AuxiliaryFileDetected without touching the directory or the memory file; innocent look-alike names must not block and stay untouched; non-trivial = (a) the history contains a failing call or doctor/vacuum, (b) a forbidden sidecar");
+    ctx.rule("(a) histories over every mutating / maintenance API (puts incl. default options, chunked and log-growing sizes, embedded puts with conflicting dimensions, update/delete incl. out-of-range and inactive ids, commit, close+reopen, read-only open next to the writer, vacuum, doctor with all option combinations incl. dry_run, doctor_plan, verify, tickets that make later puts fail with CapacityExceeded, stale tickets, begin/end_batch, commit_skip_indexes, finalize_indexes, enable_lex/vec, search); the result of each call is recorded (Ok or Err are both legal) and the directory is listed after EVERY call: it must contain exactly the one .mv2 file; (b) create / open / open_read_only / open_read_only_with_options(allow_repair) next to a generated neighbour: the 8 forbidden sidecar names (file or directory, any content) must make create/open fail with AuxiliaryFileDetected without touching the directory or the memory file; innocent look-alike names must not block and stay untouched; non-trivial = (a) the history contains a failing call or doctor/vacuum, (b) a forbidden sidecar");
     ctx.assume("the harness' own scratch directory holds nothing but the memory; Tantivy work directories live under $TMPDIR, outside it");
     let t = ctx.tier;
     vec![
         arm_with("history_listing", t.pick(150, 3000), 8, t.pick(80, 300), move || prop::collection::vec(op(), 1..=t.pick(25, 80)).prop_map(|ops| Case { ops }), check),
-        arm("sidecars", t.pick(400, 6000), || (0u8..14, any::<bool>(), prop::collection::vec(any::<u8>(), 0..40), prop::bool::weighted(0.15)).prop_map(|(which, existing, content, as_dir)| SidecarCase { which, existing, content, as_dir }), check_sidecar),
+        arm("sidecars", t.pick(400, 6000), || (0u8..14, any::<bool>(), prop::collection::vec(any::<u8>(), 0..40), prop::bool::weighted(0.15), 0u8..3).prop_map(|(which, existing, content, as_dir, entry)| SidecarCase { which, existing, content, as_dir, entry }), check_sidecar),
     ]
 }
